@@ -11,6 +11,7 @@ CONSTANTS
   Warm = FALSE
   Per = 8
   Rebuild = "limit-burst"
+  SufCheck = "exists-first"
 CONSTRAINT HighWater
 INVARIANTS FastIsSlow
 POSTCONDITION Accepted
